@@ -260,6 +260,9 @@ def meta_to_job(prog: dict, meta: dict) -> dict | None:
     if k == "signal-crash":
         return {"kind": "signal-crash", "prog": prog, "cases": [(meta["signal_at"], meta["crash_at"])],
                 "pers": meta.get("pers", True), "late_expire": meta.get("late_expire", False)}
+    if k == "cancel-crash":
+        return {"kind": "cancel-crash", "prog": prog, "cases": [(meta["cancel_at"], meta["rel"])],
+                "late_expire": meta.get("late_expire", False)}
     if k == "fifo":
         return {"kind": "fifo", "prog": prog}
     return None
